@@ -178,10 +178,25 @@ func checkC20(c *Ctx) error {
 	// a decorator argument): the tool has to refuse them (C05). Should it accept one, the container is run like the others -
 	// what it hands out in one context must still not contain a contextual instance of another
 	conflict := map[string]bool{}
-	for kind := 1; kind < ekCount; kind++ {
+	for kk := 1; kk < 2*ekCount; kk++ {
+		kind := kk
+		if kk >= ekCount {
+			kind = kk - ekCount
+			if kind == 0 {
+				continue
+			}
+		}
 		ek := [][]int{{0, kind}, {0, 0}}
 		conf := scopeGraphConfig(2, ek, []string{"shared", "contextual"})
-		id := fmt.Sprintf("k%04d", kind)
+		if kk >= ekCount {
+			// the same conflict with every tag named like the service that carries it
+			tw, ok := tagsNamedLikeCarriers(conf)
+			if !ok {
+				continue
+			}
+			conf = tw
+		}
+		id := fmt.Sprintf("k%04d", kk)
 		conflict[id] = true
 		var alpha []probe.Op
 		for k := 1; k <= G/4; k += G / 8 {
